@@ -368,6 +368,10 @@ def run(ck, fx, cg, tier, feeny=False, rule="R9.table"):
     # "fails the program" is an effect: an operator application must be compiled whether or not its value is used
     from .c10 import _no_elision
     _no_elision(ck, fx, rule="R9.executed", only={"CallMethod"}, floor=1)
+    # an infix operator reaches the VM as the method call the tables answer: the parser's constructor is plain
+    from . import shared as _sh
+    for cname, okc, whyc in _sh.ast_constructors(fx, only={"operation", "call_operator", "call_method"}):
+        ck.ob("R9.executed", "parser|AST::%s" % cname, okc, "src/parser/mod.rs", whyc)
     # wrapping forms are present where S4 says wrapping (positive evidence for + - *)
     # ---------------------------------------------------------------- arity
     from . import c14_templates
